@@ -360,6 +360,7 @@ impl System for HaSys {
 
 fn main() {
 	refmodel::set_eps(eps());
+	refmodel::set_floor(ValueType::MIN_POSITIVE as f64);
 	let mut h = H::start("C17");
 	let thorough = h.thorough();
 	let k = k_candles();
